@@ -198,3 +198,6 @@ R.contract("Node.add_peer", params={"self": "Node", "peer_uri": "str", "realm_na
            raises=[Raise("ValueError", "True", "may"), Raise("RuntimeError", "True", "may")],
            modifies=["dict:self.peers", "dict:self._peer_routes", "*dict:Dict[Any:routekey,List[Peer]]", "*list:Peer"],
            props=["C10", "C08"])
+
+R.loops[("Node.add_application", 0)].assume_iter_stable = (
+    "the caller's list of peers is not one of the node's own route lists (which the loop appends to)")
